@@ -1,2 +1,315 @@
-/* internal ops */
-#define OPS_INTERNAL
+/* internal kernel ops for C05: field, scalar, int128, group, scalar multiplication, hashing.
+ * Field operands are given as (value32, magnitude m, mode): the element is materialised with magnitude exactly m and
+ * large limbs: mode 0: v + (-0 at magnitude m-1);  mode 1 (m >= 4): (v - t) + t with t = fe_get_bounds(m-3). */
+
+static void mk_fe(secp256k1_fe *r, int ai) {
+    unsigned char *v = A_fix(ai, 32, 0); long m = A_int(ai + 1), mode = A_int(ai + 2);
+    if (g_bad) { secp256k1_fe_set_int(r, 0); return; }
+    if (m < 1 || m > 32) { bad("magnitude", ai + 1); secp256k1_fe_set_int(r, 0); return; }
+    secp256k1_fe_set_b32_mod(r, v);                       /* magnitude 1 */
+    if (m == 1) return;
+    if (mode == 1 && m >= 4) {
+        secp256k1_fe t, tn;
+        secp256k1_fe_get_bounds(&t, (int)m - 3);          /* magnitude m-3, every limb at its bound */
+        tn = t; secp256k1_fe_normalize(&tn);
+        secp256k1_fe_negate(&tn, &tn, 1);                 /* magnitude 2 */
+        secp256k1_fe_add(r, &tn);                         /* 3 */
+        secp256k1_fe_add(r, &t);                          /* m */
+    } else {
+        secp256k1_fe z; secp256k1_fe_set_int(&z, 0);
+        secp256k1_fe_negate_unchecked(&z, &z, (int)m - 2);          /* value 0, magnitude m-1 */
+        secp256k1_fe_add(r, &z);
+    }
+}
+static void R_fe(const secp256k1_fe *a) { secp256k1_fe t = *a; unsigned char b[32]; secp256k1_fe_normalize(&t); secp256k1_fe_get_b32(b, &t); R_hex(b, 32); }
+
+/* fe1 opname v m mode [k] -> ints..., value */
+static void op_fe1(void) {
+    const char *op = g_ntok > 0 ? g_tok[0] : ""; secp256k1_fe a, r; long k = g_ntok > 4 ? A_int(4) : 0; int ret = -1;
+    mk_fe(&a, 1); if (g_bad) return;
+    r = a;
+    if (!strcmp(op, "normalize")) { CALL(secp256k1_fe_normalize(&r)); { unsigned char b[32]; secp256k1_fe_get_b32(b, &r); R_int(0); R_hex(b, 32); return; } }
+    else if (!strcmp(op, "normalize_var")) { CALL(secp256k1_fe_normalize_var(&r)); { unsigned char b[32]; secp256k1_fe_get_b32(b, &r); R_int(0); R_hex(b, 32); return; } }
+    else if (!strcmp(op, "normalize_weak")) { CALL(secp256k1_fe_normalize_weak(&r)); ret = 0; }
+    else if (!strcmp(op, "normalizes_to_zero")) { CALL(ret = secp256k1_fe_normalizes_to_zero(&r)); }
+    else if (!strcmp(op, "normalizes_to_zero_var")) { CALL(ret = secp256k1_fe_normalizes_to_zero_var(&r)); }
+    else if (!strcmp(op, "is_zero")) { secp256k1_fe_normalize(&r); CALL(ret = secp256k1_fe_is_zero(&r)); }
+    else if (!strcmp(op, "is_odd")) { secp256k1_fe_normalize(&r); CALL(ret = secp256k1_fe_is_odd(&r)); }
+    else if (!strcmp(op, "negate")) { CALL(secp256k1_fe_negate_unchecked(&r, &a, (int)A_int(2))); ret = 0; }
+    else if (!strcmp(op, "mul_int")) { CALL(secp256k1_fe_mul_int_unchecked(&r, (int)k)); ret = 0; }
+    else if (!strcmp(op, "add_int")) { CALL(secp256k1_fe_add_int(&r, (int)k)); ret = 0; }
+    else if (!strcmp(op, "sqr")) { CALL(secp256k1_fe_sqr(&r, &a)); ret = 0; }
+    else if (!strcmp(op, "sqr_inplace")) { CALL(secp256k1_fe_sqr(&r, &r)); ret = 0; }
+    else if (!strcmp(op, "inv")) { CALL(secp256k1_fe_inv(&r, &a)); ret = 0; }
+    else if (!strcmp(op, "inv_var")) { CALL(secp256k1_fe_inv_var(&r, &a)); ret = 0; }
+    else if (!strcmp(op, "sqrt")) { CALL(ret = secp256k1_fe_sqrt(&r, &a)); }
+    else if (!strcmp(op, "is_square_var")) { CALL(ret = secp256k1_fe_is_square_var(&a)); }
+    else if (!strcmp(op, "half")) { CALL(secp256k1_fe_half(&r)); ret = 0; }
+    else if (!strcmp(op, "storage")) { secp256k1_fe_storage s; secp256k1_fe_normalize(&r); CALL(secp256k1_fe_to_storage(&s, &r)); CALL(secp256k1_fe_from_storage(&r, &s)); ret = 0; }
+    else { bad("unknown fe1 op", 0); return; }
+    R_int(ret); R_fe(&r);
+}
+/* fe_set_b32 bytes -> limit_ret limit_value mod_value */
+static void op_fe_set_b32(void) {
+    unsigned char *v = A_fix(0, 32, 0); secp256k1_fe a, b; int r;
+    if (g_bad) return;
+    CALL(r = secp256k1_fe_set_b32_limit(&a, v)); CALL(secp256k1_fe_set_b32_mod(&b, v));
+    R_int(r); if (r) R_fe(&a); else R_hex(NULL, 0); R_fe(&b);
+}
+/* fe2 opname v1 m1 mode1 v2 m2 mode2 [flag] */
+static void op_fe2(void) {
+    const char *op = g_ntok > 0 ? g_tok[0] : ""; secp256k1_fe a, b, r; int ret = -1; long flag = g_ntok > 7 ? A_int(7) : 0;
+    mk_fe(&a, 1); mk_fe(&b, 4); if (g_bad) return;
+    r = a;
+    if (!strcmp(op, "add")) { CALL(secp256k1_fe_add(&r, &b)); ret = 0; }
+    else if (!strcmp(op, "mul")) { CALL(secp256k1_fe_mul(&r, &a, &b)); ret = 0; }
+    else if (!strcmp(op, "mul_inplace")) { CALL(secp256k1_fe_mul(&r, &r, &b)); ret = 0; }
+    else if (!strcmp(op, "equal")) { CALL(ret = secp256k1_fe_equal(&a, &b)); }
+    else if (!strcmp(op, "cmp_var")) { secp256k1_fe_normalize(&a); secp256k1_fe_normalize(&b); CALL(ret = secp256k1_fe_cmp_var(&a, &b)); r = a; }
+    else if (!strcmp(op, "cmov")) { CALL(secp256k1_fe_cmov(&r, &b, (int)flag)); ret = 0; }
+    else { bad("unknown fe2 op", 0); return; }
+    R_int(ret); R_fe(&r);
+}
+
+/* ---- scalars */
+static void R_sc(const secp256k1_scalar *s) { unsigned char b[32]; secp256k1_scalar_get_b32(b, s); R_hex(b, 32); }
+/* sc opname a32 b32 k1 k2 -> ints, scalars */
+static void op_sc(void) {
+    const char *op = g_ntok > 0 ? g_tok[0] : ""; unsigned char *ab = A_fix(1, 32, 0), *bb = A_fix(2, 32, 0); long k1 = A_int(3), k2 = A_int(4);
+    secp256k1_scalar a, b, r, r2; int ov = 0, ret = -1;
+    if (g_bad) return;
+    secp256k1_scalar_set_b32(&a, ab, &ov); secp256k1_scalar_set_b32(&b, bb, NULL); r = a; secp256k1_scalar_set_int(&r2, 0);
+    if (!strcmp(op, "set_b32")) { ret = ov; }
+    else if (!strcmp(op, "set_b32_seckey")) { CALL(ret = secp256k1_scalar_set_b32_seckey(&r, ab)); }
+    else if (!strcmp(op, "add")) { CALL(ret = secp256k1_scalar_add(&r, &a, &b)); }
+    else if (!strcmp(op, "cadd_bit")) { CALL(secp256k1_scalar_cadd_bit(&r, (unsigned)k1, (int)k2)); ret = 0; }
+    else if (!strcmp(op, "mul")) { CALL(secp256k1_scalar_mul(&r, &a, &b)); ret = 0; }
+    else if (!strcmp(op, "sqr")) { CALL(secp256k1_scalar_sqr(&r, &a)); ret = 0; }
+    else if (!strcmp(op, "inverse")) { CALL(secp256k1_scalar_inverse(&r, &a)); ret = 0; }
+    else if (!strcmp(op, "inverse_var")) { CALL(secp256k1_scalar_inverse_var(&r, &a)); ret = 0; }
+    else if (!strcmp(op, "negate")) { CALL(secp256k1_scalar_negate(&r, &a)); ret = 0; }
+    else if (!strcmp(op, "half")) { CALL(secp256k1_scalar_half(&r, &a)); ret = 0; }
+    else if (!strcmp(op, "is_high")) { CALL(ret = secp256k1_scalar_is_high(&a)); }
+    else if (!strcmp(op, "is_zero")) { CALL(ret = secp256k1_scalar_is_zero(&a)); }
+    else if (!strcmp(op, "is_one")) { CALL(ret = secp256k1_scalar_is_one(&a)); }
+    else if (!strcmp(op, "is_even")) { CALL(ret = secp256k1_scalar_is_even(&a)); }
+    else if (!strcmp(op, "eq")) { CALL(ret = secp256k1_scalar_eq(&a, &b)); }
+    else if (!strcmp(op, "cond_negate")) { CALL(ret = secp256k1_scalar_cond_negate(&r, (int)k1)); }
+    else if (!strcmp(op, "cmov")) { CALL(secp256k1_scalar_cmov(&r, &b, (int)k1)); ret = 0; }
+    else if (!strcmp(op, "split_128")) { CALL(secp256k1_scalar_split_128(&r, &r2, &a)); ret = 0; }
+    else if (!strcmp(op, "split_lambda")) { CALL(secp256k1_scalar_split_lambda(&r, &r2, &a)); ret = 0; }
+    else if (!strcmp(op, "mul_shift_var")) { CALL(secp256k1_scalar_mul_shift_var(&r, &a, &b, (unsigned)k1)); ret = 0; }
+    else if (!strcmp(op, "get_bits_limb32")) { CALL(ret = (int)secp256k1_scalar_get_bits_limb32(&a, (unsigned)k1, (unsigned)k2)); }
+    else if (!strcmp(op, "get_bits_var")) { CALL(ret = (int)secp256k1_scalar_get_bits_var(&a, (unsigned)k1, (unsigned)k2)); }
+    else if (!strcmp(op, "set_u64")) { CALL(secp256k1_scalar_set_u64(&r, A_u64(3))); ret = 0; }
+    else { bad("unknown sc op", 0); return; }
+    R_int(ret); R_sc(&r); R_sc(&r2);
+}
+
+/* ---- int128: i128 opname a b c d n  (a..d decimal, signed or unsigned per op) -> hi lo / ints */
+#if !defined(SECP256K1_WIDEMUL_INT128)
+static void op_i128(void) { R_str("unsupported"); }
+#else
+static void op_i128(void) {
+    const char *op = g_ntok > 0 ? g_tok[0] : ""; uint64_t ua = strtoull(g_ntok > 1 ? g_tok[1] : "0", NULL, 10), ub = strtoull(g_ntok > 2 ? g_tok[2] : "0", NULL, 10);
+    uint64_t uc = strtoull(g_ntok > 3 ? g_tok[3] : "0", NULL, 10), ud = strtoull(g_ntok > 4 ? g_tok[4] : "0", NULL, 10); unsigned nn = (unsigned)A_int(5);
+    int64_t a = (int64_t)ua, b = (int64_t)ub, c = (int64_t)uc, d = (int64_t)ud;
+    if (!strcmp(op, "u_mul")) { secp256k1_uint128 r; CALL(secp256k1_u128_mul(&r, ua, ub)); R_u64(secp256k1_u128_hi_u64(&r)); R_u64(secp256k1_u128_to_u64(&r)); }
+    else if (!strcmp(op, "u_accum_mul")) { secp256k1_uint128 r; secp256k1_u128_load(&r, uc, ud); CALL(secp256k1_u128_accum_mul(&r, ua, ub)); R_u64(secp256k1_u128_hi_u64(&r)); R_u64(secp256k1_u128_to_u64(&r)); }
+    else if (!strcmp(op, "u_accum_u64")) { secp256k1_uint128 r; secp256k1_u128_load(&r, uc, ud); CALL(secp256k1_u128_accum_u64(&r, ua)); R_u64(secp256k1_u128_hi_u64(&r)); R_u64(secp256k1_u128_to_u64(&r)); }
+    else if (!strcmp(op, "u_rshift")) { secp256k1_uint128 r; secp256k1_u128_load(&r, uc, ud); CALL(secp256k1_u128_rshift(&r, nn)); R_u64(secp256k1_u128_hi_u64(&r)); R_u64(secp256k1_u128_to_u64(&r)); }
+    else if (!strcmp(op, "u_check_bits")) { secp256k1_uint128 r; int x; secp256k1_u128_load(&r, uc, ud); CALL(x = secp256k1_u128_check_bits(&r, nn)); R_int(x); R_int(0); }
+    else if (!strcmp(op, "i_mul")) { secp256k1_int128 r; secp256k1_int128 s; CALL(secp256k1_i128_mul(&r, a, b)); s = r; secp256k1_i128_rshift(&s, 64); R_u64((uint64_t)secp256k1_i128_to_i64(&s)); R_u64(secp256k1_i128_to_u64(&r)); }
+    else if (!strcmp(op, "i_accum_mul")) { secp256k1_int128 r, s; secp256k1_i128_load(&r, c, ud); CALL(secp256k1_i128_accum_mul(&r, a, b)); s = r; secp256k1_i128_rshift(&s, 64); R_u64((uint64_t)secp256k1_i128_to_i64(&s)); R_u64(secp256k1_i128_to_u64(&r)); }
+    else if (!strcmp(op, "i_det")) { secp256k1_int128 r, s; CALL(secp256k1_i128_det(&r, a, b, c, d)); s = r; secp256k1_i128_rshift(&s, 64); R_u64((uint64_t)secp256k1_i128_to_i64(&s)); R_u64(secp256k1_i128_to_u64(&r)); }
+    else if (!strcmp(op, "i_rshift")) { secp256k1_int128 r, s; secp256k1_i128_load(&r, c, ud); CALL(secp256k1_i128_rshift(&r, nn)); s = r; secp256k1_i128_rshift(&s, 64); R_u64((uint64_t)secp256k1_i128_to_i64(&s)); R_u64(secp256k1_i128_to_u64(&r)); }
+    else if (!strcmp(op, "i_check_pow2")) { secp256k1_int128 r; int x; secp256k1_i128_load(&r, c, ud); CALL(x = secp256k1_i128_check_pow2(&r, nn, (int)a)); R_int(x); R_int(0); }
+    else if (!strcmp(op, "i_eq_var")) { secp256k1_int128 r, s; int x; secp256k1_i128_load(&r, a, ub); secp256k1_i128_load(&s, c, ud); CALL(x = secp256k1_i128_eq_var(&r, &s)); R_int(x); R_int(0); }
+    else bad("unknown i128 op", 0);
+}
+#endif
+
+/* ---- group: a point operand is (p33ext, z32): affine point (33 zero bytes = infinity) rescaled by z into Jacobian form */
+static int mk_ge(secp256k1_ge *r, int ai) {
+    unsigned char *pb = A_fix(ai, 33, 0);
+    if (g_bad) return 0;
+    if (!secp256k1_ge_parse_ext(r, pb)) { bad("point operand does not parse", ai); return 0; }
+    return 1;
+}
+static void mk_gej(secp256k1_gej *r, int ai) {
+    secp256k1_ge g; unsigned char *zb; secp256k1_fe z;
+    if (!mk_ge(&g, ai)) { secp256k1_gej_set_infinity(r); return; }
+    zb = A_fix(ai + 1, 32, 0); if (g_bad) return;
+    secp256k1_gej_set_ge(r, &g);
+    secp256k1_fe_set_b32_mod(&z, zb);
+    if (!secp256k1_fe_normalizes_to_zero_var(&z) && !g.infinity) secp256k1_gej_rescale(r, &z);
+}
+static void R_ge(secp256k1_ge *g) { unsigned char b[33]; secp256k1_ge_serialize_ext(b, g); R_hex(b, 33); }
+static void R_gej(secp256k1_gej *j) { secp256k1_ge g; secp256k1_gej t = *j; secp256k1_ge_set_gej_var(&g, &t); R_ge(&g); }
+/* grp opname A zA B zB [extra32] [k] */
+static void op_grp(void) {
+    const char *op = g_ntok > 0 ? g_tok[0] : ""; secp256k1_gej a, b, r; secp256k1_ge ga, gb, gr; int ret = -1;
+    mk_gej(&a, 1); mk_gej(&b, 3); if (g_bad) return;
+    { secp256k1_gej t = a; secp256k1_ge_set_gej_var(&ga, &t); t = b; secp256k1_ge_set_gej_var(&gb, &t); }
+    secp256k1_gej_set_infinity(&r);
+    if (!strcmp(op, "double")) { if (a.infinity) { r = a; } else CALL(secp256k1_gej_double(&r, &a)); ret = 0; }
+    else if (!strcmp(op, "double_var")) { secp256k1_fe rzr; CALL(secp256k1_gej_double_var(&r, &a, (A_int(6) && !a.infinity) ? &rzr : NULL)); ret = 0; }
+    else if (!strcmp(op, "add_var")) { secp256k1_fe rzr; CALL(secp256k1_gej_add_var(&r, &a, &b, (A_int(6) && !a.infinity) ? &rzr : NULL)); ret = 0; }
+    else if (!strcmp(op, "add_ge")) { CALL(secp256k1_gej_add_ge(&r, &a, &gb)); ret = 0; }
+    else if (!strcmp(op, "add_ge_var")) { secp256k1_fe rzr; CALL(secp256k1_gej_add_ge_var(&r, &a, &gb, (A_int(6) && !a.infinity) ? &rzr : NULL)); ret = 0; }
+    else if (!strcmp(op, "add_zinv_var")) {
+        /* b is supplied in the coordinates of a curve isomorphic by z = zB: b' = (b.x * zB^2, b.y * zB^3) with bzinv = 1/zB */
+        unsigned char *zb = A_fix(5, 32, 0); secp256k1_fe z, zi, z2, z3; secp256k1_ge bs = gb;
+        secp256k1_fe_set_b32_mod(&z, zb); if (secp256k1_fe_normalizes_to_zero_var(&z)) secp256k1_fe_set_int(&z, 1);
+        secp256k1_fe_inv_var(&zi, &z); secp256k1_fe_sqr(&z2, &z); secp256k1_fe_mul(&z3, &z2, &z);
+        if (!bs.infinity) { secp256k1_fe_mul(&bs.x, &bs.x, &z2); secp256k1_fe_mul(&bs.y, &bs.y, &z3); }
+        CALL(secp256k1_gej_add_zinv_var(&r, &a, &bs, &zi)); ret = 0;
+    }
+    else if (!strcmp(op, "set_gej")) { secp256k1_gej t = a; CALL(secp256k1_ge_set_gej(&gr, &t)); R_int(0); R_ge(&gr); return; }
+    else if (!strcmp(op, "set_gej_var")) { secp256k1_gej t = a; CALL(secp256k1_ge_set_gej_var(&gr, &t)); R_int(0); R_ge(&gr); return; }
+    else if (!strcmp(op, "eq_var")) { CALL(ret = secp256k1_gej_eq_var(&a, &b)); }
+    else if (!strcmp(op, "eq_ge_var")) { CALL(ret = secp256k1_gej_eq_ge_var(&a, &gb)); }
+    else if (!strcmp(op, "ge_eq_var")) { CALL(ret = secp256k1_ge_eq_var(&ga, &gb)); }
+    else if (!strcmp(op, "eq_x_var")) { unsigned char *xb = A_fix(5, 32, 0); secp256k1_fe x; if (g_bad) return; if (!secp256k1_fe_set_b32_limit(&x, xb)) { bad("x >= p", 5); return; } if (a.infinity) { bad("infinity", 1); return; } CALL(ret = secp256k1_gej_eq_x_var(&x, &a)); }
+    else if (!strcmp(op, "neg")) { CALL(secp256k1_gej_neg(&r, &a)); ret = 0; }
+    else if (!strcmp(op, "ge_neg")) { CALL(secp256k1_ge_neg(&gr, &ga)); R_int(0); R_ge(&gr); return; }
+    else if (!strcmp(op, "mul_lambda")) { if (ga.infinity) { bad("infinity", 1); return; } CALL(secp256k1_ge_mul_lambda(&gr, &ga)); R_int(0); R_ge(&gr); return; }
+    else if (!strcmp(op, "cmov")) { r = a; CALL(secp256k1_gej_cmov(&r, &b, (int)A_int(6))); ret = 0; }
+    else if (!strcmp(op, "is_valid_var")) { CALL(ret = secp256k1_ge_is_valid_var(&ga)); }
+    else if (!strcmp(op, "is_infinity")) { CALL(ret = secp256k1_gej_is_infinity(&a)); }
+    else if (!strcmp(op, "subgroup")) { CALL(ret = secp256k1_ge_is_in_correct_subgroup(&ga)); }
+    else if (!strcmp(op, "storage")) { secp256k1_ge_storage s; if (ga.infinity) { bad("infinity", 1); return; } CALL(secp256k1_ge_to_storage(&s, &ga)); CALL(secp256k1_ge_from_storage(&gr, &s)); R_int(0); R_ge(&gr); return; }
+    else if (!strcmp(op, "bytes")) { unsigned char buf[64]; if (ga.infinity) { bad("infinity", 1); return; } CALL(secp256k1_ge_to_bytes(buf, &ga)); CALL(secp256k1_ge_from_bytes(&gr, buf)); R_int(0); R_ge(&gr); return; }
+    else if (!strcmp(op, "bytes_ext")) { unsigned char buf[64]; CALL(secp256k1_ge_to_bytes_ext(buf, &ga)); CALL(secp256k1_ge_from_bytes_ext(&gr, buf)); R_int(0); R_ge(&gr); return; }
+    else { bad("unknown grp op", 0); return; }
+    R_int(ret); R_gej(&r);
+}
+/* ge_set_x x32 mode odd : mode 0 set_xo_var, 1 set_xquad, 2 x_on_curve_var, 3 x_frac_on_curve_var(x = n, d = arg 3 as 32 bytes) */
+static void op_ge_set_x(void) {
+    unsigned char *xb = A_fix(0, 32, 0); long mode = A_int(1), odd = A_int(2); secp256k1_fe x; secp256k1_ge g; int r;
+    if (g_bad) return; secp256k1_fe_set_b32_mod(&x, xb); secp256k1_ge_set_infinity(&g);
+    if (mode == 0) { CALL(r = secp256k1_ge_set_xo_var(&g, &x, (int)odd)); R_int(r); if (r) R_ge(&g); else R_hex(NULL, 0); }
+    else if (mode == 1) { CALL(r = secp256k1_ge_set_xquad(&g, &x)); R_int(r); if (r) R_ge(&g); else R_hex(NULL, 0); }
+    else if (mode == 2) { CALL(r = secp256k1_ge_x_on_curve_var(&x)); R_int(r); R_hex(NULL, 0); }
+    else { unsigned char *db = A_fix(3, 32, 0); secp256k1_fe d; if (g_bad) return; secp256k1_fe_set_b32_mod(&d, db); CALL(r = secp256k1_ge_x_frac_on_curve_var(&x, &d)); R_int(r); R_hex(NULL, 0); }
+}
+/* set_all_gej var? concat(p33) concat(z32) n */
+static void op_set_all_gej(void) {
+    long var = A_int(0); size_t lp, lz, i; unsigned char *pb = A_blob(1, &lp), *zb = A_blob(2, &lz); size_t n = (size_t)A_u64(3); secp256k1_gej *js; secp256k1_ge *gs;
+    if (g_bad) return; if (lp != 33 * n || lz != 32 * n) { bad("size", 1); return; }
+    js = (secp256k1_gej *)keep(xmalloc(sizeof(*js) * (n ? n : 1))); gs = (secp256k1_ge *)keep(xmalloc(sizeof(*gs) * (n ? n : 1)));
+    for (i = 0; i < n; i++) {
+        secp256k1_ge g; secp256k1_fe z;
+        if (!secp256k1_ge_parse_ext(&g, pb + 33 * i)) { bad("point", 1); return; }
+        secp256k1_gej_set_ge(&js[i], &g); secp256k1_fe_set_b32_mod(&z, zb + 32 * i);
+        if (!secp256k1_fe_normalizes_to_zero_var(&z) && !g.infinity) secp256k1_gej_rescale(&js[i], &z);
+    }
+    if (var) CALL(secp256k1_ge_set_all_gej_var(gs, js, n)); else CALL(secp256k1_ge_set_all_gej(gs, js, n));
+    R_int((long long)n);
+    for (i = 0; i < n; i++) R_ge(&gs[i]);
+}
+
+/* ---- scalar multiplication */
+/* ecmult P zP na ng|-  */
+static void op_ecmult(void) {
+    secp256k1_gej a, r; unsigned char *nab = A_fix(2, 32, 0), *ngb = A_fix(3, 32, 1); secp256k1_scalar na, ng;
+    mk_gej(&a, 0); if (g_bad) return;
+    secp256k1_scalar_set_b32(&na, nab, NULL); if (ngb) secp256k1_scalar_set_b32(&ng, ngb, NULL);
+    CALL(secp256k1_ecmult(&r, &a, &na, ngb ? &ng : NULL)); R_gej(&r);
+}
+static void op_ecmult_gen(void) {
+    unsigned char *kb = A_fix(0, 32, 0); secp256k1_scalar k; secp256k1_gej r;
+    if (g_bad) return; secp256k1_scalar_set_b32(&k, kb, NULL);
+    CALL(secp256k1_ecmult_gen(&ctx->ecmult_gen_ctx, &r, &k)); R_gej(&r);
+}
+static void op_ecmult_const(void) {
+    secp256k1_ge a; unsigned char *qb = A_fix(1, 32, 0); secp256k1_scalar q; secp256k1_gej r;
+    if (!mk_ge(&a, 0)) return; if (g_bad) return; secp256k1_scalar_set_b32(&q, qb, NULL);
+    CALL(secp256k1_ecmult_const(&r, &a, &q)); R_gej(&r);
+}
+/* ecmult_const_xonly n32 d32|- q32 known -> ret x32 */
+static void op_ecmult_const_xonly(void) {
+    unsigned char *nb = A_fix(0, 32, 0), *db = A_fix(1, 32, 1), *qb = A_fix(2, 32, 0); long known = A_int(3); secp256k1_fe nn, d, r; secp256k1_scalar q; int ret;
+    if (g_bad) return; secp256k1_fe_set_b32_mod(&nn, nb); if (db) secp256k1_fe_set_b32_mod(&d, db); secp256k1_scalar_set_b32(&q, qb, NULL);
+    if (secp256k1_scalar_is_zero(&q) || (db && secp256k1_fe_normalizes_to_zero_var(&d))) { bad("precondition: q != 0, d != 0", 2); return; }
+    secp256k1_fe_set_int(&r, 0);
+    CALL(ret = secp256k1_ecmult_const_xonly(&r, &nn, db ? &d : NULL, &q, (int)known)); R_int(ret); if (ret) R_fe(&r); else R_hex(NULL, 0);
+}
+typedef struct { secp256k1_scalar *sc; secp256k1_ge *pt; } multi_data;
+static int multi_cb(secp256k1_scalar *sc, secp256k1_ge *pt, size_t idx, void *data) { multi_data *d = (multi_data *)data; *sc = d->sc[idx]; *pt = d->pt[idx]; return 1; }
+/* ecmult_multi algo scratch_size concat(sc32) concat(p33ext) n g_sc|- ; algo 0: multi_var, 1: strauss_batch_single, 2: pippenger_batch_single, 3: simple_var */
+static void op_ecmult_multi(void) {
+    long algo = A_int(0); size_t ss = (size_t)A_u64(1), ls, lp, i; unsigned char *sb = A_blob(2, &ls), *pb = A_blob(3, &lp); size_t n = (size_t)A_u64(4); unsigned char *gb = A_fix(5, 32, 1);
+    multi_data md; secp256k1_scalar gsc; secp256k1_gej r; secp256k1_scratch_space *scratch = NULL; int ret;
+    if (g_bad) return; if (ls != 32 * n || lp != 33 * n) { bad("size", 2); return; }
+    md.sc = (secp256k1_scalar *)keep(xmalloc(sizeof(secp256k1_scalar) * (n ? n : 1))); md.pt = (secp256k1_ge *)keep(xmalloc(sizeof(secp256k1_ge) * (n ? n : 1)));
+    for (i = 0; i < n; i++) { secp256k1_scalar_set_b32(&md.sc[i], sb + 32 * i, NULL); if (!secp256k1_ge_parse_ext(&md.pt[i], pb + 33 * i)) { bad("point", 3); return; } }
+    if (gb) secp256k1_scalar_set_b32(&gsc, gb, NULL);
+    if (ss) CALL(scratch = secp256k1_scratch_space_create(ctx, ss));
+    secp256k1_gej_set_infinity(&r);
+    if (algo == 0) CALL(ret = secp256k1_ecmult_multi_var(&ctx->error_callback, scratch, &r, gb ? &gsc : NULL, multi_cb, &md, n));
+    else if (algo == 1) { if (!scratch) { bad("strauss needs scratch", 1); return; } CALL(ret = secp256k1_ecmult_strauss_batch_single(&ctx->error_callback, scratch, &r, gb ? &gsc : NULL, multi_cb, &md, n)); }
+    else if (algo == 2) { if (!scratch) { bad("pippenger needs scratch", 1); return; } CALL(ret = secp256k1_ecmult_pippenger_batch_single(&ctx->error_callback, scratch, &r, gb ? &gsc : NULL, multi_cb, &md, n)); }
+    else CALL(ret = secp256k1_ecmult_multi_simple_var(&r, gb ? &gsc : NULL, multi_cb, &md, n));
+    R_int(ret); if (ret) R_gej(&r); else R_hex(NULL, 0);
+    if (scratch) CALL(secp256k1_scratch_space_destroy(ctx, scratch));
+}
+
+/* ---- hashing: chunk list = decimal sizes separated by ',' (covering the data) */
+static size_t next_chunk(const char **p, size_t left) {
+    size_t v; char *e; if (!**p) return left; v = strtoul(*p, &e, 10); *p = (*e == ',') ? e + 1 : e; return v > left ? left : v;
+}
+static void op_sha256(void) {
+    size_t l, off = 0; unsigned char *d = A_blob(0, &l); const char *ch = g_ntok > 1 ? g_tok[1] : ""; secp256k1_sha256 h; unsigned char out[32]; const secp256k1_hash_ctx *hc = secp256k1_get_hash_context(ctx);
+    if (g_bad) return;
+    CALL(secp256k1_sha256_initialize(&h));
+    while (off < l || *ch) { size_t c = next_chunk(&ch, l - off); CALL(secp256k1_sha256_write(hc, &h, d + off, c)); off += c; if (off >= l && !*ch) break; }
+    CALL(secp256k1_sha256_finalize(hc, &h, out)); R_hex(out, 32);
+}
+static void op_hmac(void) {
+    size_t kl, l, off = 0; unsigned char *k = A_blob(0, &kl), *d = A_blob(1, &l); const char *ch = g_ntok > 2 ? g_tok[2] : ""; secp256k1_hmac_sha256 h; unsigned char out[32]; const secp256k1_hash_ctx *hc = secp256k1_get_hash_context(ctx);
+    if (g_bad) return;
+    CALL(secp256k1_hmac_sha256_initialize(hc, &h, k, kl));
+    while (off < l || *ch) { size_t c = next_chunk(&ch, l - off); CALL(secp256k1_hmac_sha256_write(hc, &h, d + off, c)); off += c; if (off >= l && !*ch) break; }
+    CALL(secp256k1_hmac_sha256_finalize(hc, &h, out)); R_hex(out, 32);
+}
+/* rfc6979 key outlens(comma list) -> outputs */
+static void op_rfc6979(void) {
+    size_t kl; unsigned char *k = A_blob(0, &kl); const char *ch = g_ntok > 1 ? g_tok[1] : ""; secp256k1_rfc6979_hmac_sha256 rng; const secp256k1_hash_ctx *hc = secp256k1_get_hash_context(ctx);
+    if (g_bad) return;
+    CALL(secp256k1_rfc6979_hmac_sha256_initialize(hc, &rng, k, kl));
+    while (*ch) { size_t c = next_chunk(&ch, 100000); unsigned char *o = O_buf(c); CALL(secp256k1_rfc6979_hmac_sha256_generate(hc, &rng, o, c)); R_hex(o, c); }
+    CALL(secp256k1_rfc6979_hmac_sha256_finalize(&rng));
+}
+/* midstate name msg -> digest of the precomputed tagged midstate continued with msg */
+static void op_midstate(void) {
+    const char *nm = g_ntok > 0 ? g_tok[0] : ""; size_t l; unsigned char *m = A_blob(1, &l); secp256k1_sha256 h; unsigned char out[32]; const secp256k1_hash_ctx *hc = secp256k1_get_hash_context(ctx);
+    if (g_bad) return;
+    if (!strcmp(nm, "BIP0340/nonce")) secp256k1_nonce_function_bip340_sha256_tagged(&h);
+    else if (!strcmp(nm, "BIP0340/aux")) secp256k1_nonce_function_bip340_sha256_tagged_aux(&h);
+    else if (!strcmp(nm, "BIP0340/challenge")) secp256k1_schnorrsig_sha256_tagged(&h);
+    else if (!strcmp(nm, "s2c/ecdsa/point")) secp256k1_s2c_ecdsa_point_sha256_tagged(&h);
+    else if (!strcmp(nm, "s2c/ecdsa/data")) secp256k1_s2c_ecdsa_data_sha256_tagged(&h);
+    else if (!strcmp(nm, "Bulletproofs_pp/v0/commitment")) secp256k1_bppp_sha256_tagged_commitment_init(&h);
+    else if (!strcmp(nm, "ECDSAadaptor/non")) secp256k1_nonce_function_ecdsa_adaptor_sha256_tagged(&h);
+    else if (!strcmp(nm, "ECDSAadaptor/aux")) secp256k1_nonce_function_ecdsa_adaptor_sha256_tagged_aux(&h);
+    else if (!strcmp(nm, "DLEQ")) secp256k1_nonce_function_dleq_sha256_tagged(&h);
+    else if (!strcmp(nm, "HalfAgg/randomizer")) secp256k1_schnorrsig_sha256_tagged_aggregation(&h);
+    else if (!strcmp(nm, "MuSig/aux")) secp256k1_nonce_function_musig_sha256_tagged_aux(&h);
+    else if (!strcmp(nm, "MuSig/nonce")) secp256k1_nonce_function_musig_sha256_tagged(&h);
+    else if (!strcmp(nm, "MuSig/noncecoef")) secp256k1_musig_compute_noncehash_sha256_tagged(&h);
+    else if (!strcmp(nm, "KeyAgg_list")) secp256k1_musig_keyagglist_sha256(&h);
+    else if (!strcmp(nm, "KeyAgg_coefficient")) secp256k1_musig_keyaggcoef_sha256(&h);
+    else if (!strcmp(nm, "secp256k1_ellswift_encode")) secp256k1_ellswift_sha256_init_encode(&h);
+    else if (!strcmp(nm, "secp256k1_ellswift_create")) secp256k1_ellswift_sha256_init_create(&h);
+    else if (!strcmp(nm, "bip324_ellswift_xonly_ecdh")) secp256k1_ellswift_sha256_init_bip324(&h);
+    else { /* generic: initialize_tagged with the name as tag */ CALL(secp256k1_sha256_initialize_tagged(hc, &h, (const unsigned char *)nm, strlen(nm))); }
+    CALL(secp256k1_sha256_write(hc, &h, m, l)); CALL(secp256k1_sha256_finalize(hc, &h, out)); R_hex(out, 32);
+}
+
+#undef OPS_INTERNAL
+#define OPS_INTERNAL \
+    { "fe1", op_fe1 }, { "fe2", op_fe2 }, { "fe_set_b32", op_fe_set_b32 }, { "sc", op_sc }, { "i128", op_i128 }, { "grp", op_grp }, { "ge_set_x", op_ge_set_x }, \
+    { "set_all_gej", op_set_all_gej }, { "ecmult", op_ecmult }, { "ecmult_gen", op_ecmult_gen }, { "ecmult_const", op_ecmult_const }, \
+    { "ecmult_const_xonly", op_ecmult_const_xonly }, { "ecmult_multi", op_ecmult_multi }, { "sha256", op_sha256 }, { "hmac", op_hmac }, \
+    { "rfc6979", op_rfc6979 }, { "midstate", op_midstate },
